@@ -59,7 +59,7 @@ Definition cyclic (nodes : list string) (es : list edge) : bool :=
    (Replace inherits the requests of a "*" callback), KStarReplace are labels only: nothing is excused
    for them any more. *)
 Inductive kclass := KNone | KSelfTarget | KNamedCycle | KStarUnsat | KStarReplace | KAfterOverwritten | KSelfSilent
-                  | KStaleRequest | KReplaceRequests.
+                  | KStaleRequest.
 
 Definition self_target (live : list entry) : bool :=
   existsb (fun e => (negb (is_none (e_before e)) && String.eqb (e_before e) (e_name e))
@@ -80,12 +80,25 @@ Definition both_star (live : list entry) : bool :=
   existsb (fun e => is_star (e_before e) && is_star (e_after e)) live && Nat.leb 2 (length live).
 Definition star_replaced (live : list entry) : bool :=
   existsb (fun e => (is_star (e_before e) || is_star (e_after e)) && negb (N.eqb (e_hid e) (e_reg e))) live.
+(* does following After requests from the callback named [from] reach the callback named [goal]? *)
+Fixpoint after_reaches (fuel : nat) (live : list entry) (from goal : string) : bool :=
+  match fuel with
+  | O => false
+  | S f => match find_live live from with
+           | Some e => if is_none (e_after e) then false
+                       else String.eqb (e_after e) goal || after_reaches f live (e_after e) goal
+           | None => false
+           end
+  end.
+(* c = Before(x).Register(..) is sorted while x is not yet sorted: c was registered before x, or x is a "*"
+   callback (sorted last), or c is reached through x's own chain of After requests (x is being sorted) *)
 Definition after_overwritten (live : list entry) : bool :=
   existsb (fun c =>
     negb (is_none (e_before c)) && negb (is_star (e_before c)) &&
     match find_live live (e_before c) with
     | Some x => negb (is_none (e_after x)) && negb (String.eqb (e_after x) (e_name c))
-                && (N.ltb (e_reg c) (e_reg x) || is_star (e_before x) || is_star (e_after x))
+                && (N.ltb (e_reg c) (e_reg x) || is_star (e_before x) || is_star (e_after x)
+                    || after_reaches (length live) live (e_name x) (e_name c))
     | None => false
     end) live.
 
@@ -102,17 +115,6 @@ Definition stale_request (r : rstate) : bool :=
                          end
                     end) (r_ghosts r).
 
-(* a callback that carries a Before/After request of its own AND is named by another callback has been
-   Replaced: the plain replacement copy takes over the name, so what the sorter writes for / reads from "the
-   callback of that name" (after.before = c.name, cs[idx].after = c.name) now hits the copy and no longer
-   the entry that holds the requests *)
-Definition replace_requests (live : list entry) : bool :=
-  existsb (fun x =>
-    negb (N.eqb (e_hid x) (e_reg x))
-    && (negb (is_none (e_before x)) || negb (is_none (e_after x)))
-    && existsb (fun c => negb (named (e_name x) c)
-                         && (String.eqb (e_before c) (e_name x) || String.eqb (e_after c) (e_name x))) live) live.
-
 Definition class_of (r : rstate) : kclass :=
   let live := r_live r in
   let nodes := map e_name live in
@@ -122,7 +124,6 @@ Definition class_of (r : rstate) : kclass :=
   else if star_replaced live then KStarReplace
   else if after_overwritten live then KAfterOverwritten
   else if stale_request r then KStaleRequest
-  else if replace_requests live then KReplaceRequests
   else if self_target live then KSelfTarget
   else if cyclic nodes base then KNamedCycle
   else KNone.
